@@ -5,6 +5,7 @@
 //!   hsim eval   <file>                      run one replay record, print `EVAL <json>`
 //!   hsim replay <file>                      same, human readable; exit 1 if it reproduces
 
+#[cfg(feature = "sim")]
 mod afamily;
 mod build;
 mod cfamily;
@@ -12,6 +13,7 @@ mod dfamily;
 mod driver;
 mod hashseed;
 mod oracle;
+#[cfg(feature = "sim")]
 mod pfamily;
 mod plan;
 mod props;
@@ -20,9 +22,13 @@ mod run;
 mod shrink;
 mod sys;
 mod util;
+#[cfg(feature = "sim")]
 mod w8;
+#[cfg(feature = "sim")]
 mod w9;
+#[cfg(feature = "sim")]
 mod zoo;
+#[cfg(feature = "sim")]
 mod zoo_gen;
 
 fn main() {
@@ -37,6 +43,7 @@ fn main() {
         "worker" => driver::cmd_worker(&args[2..]),
         "eval" => driver::cmd_eval(&args[2], false),
         "replay" => driver::cmd_eval(&args[2], true),
+        "xdigest" => driver::cmd_xdigest(&args[2], args[3].parse().unwrap(), args[4].parse().unwrap()),
         _ => {
             eprintln!("unknown subcommand");
             std::process::exit(2);
